@@ -1,3 +1,7 @@
+-- always nil on an interpreter of its own; complains when a global from an earlier block is still around
+calls = (calls or 0) + 1
 function validate(ctx, content)
+  if calls > 1 or ran then return "stale interpreter state: the script has been loaded or run before in this interpreter" end
+  ran = true
   return nil
 end
